@@ -155,7 +155,7 @@ def extract(units=None, extra_units=()):
 
 
 _STR_KEYS = ("t", "ref", "callee", "cname", "mac", "key", "q", "file", "cls", "at", "dt",
-             "ct", "tw", "mq", "base", "opkey")
+             "ct", "tw", "mq", "base", "opkey", "ret")
 _CHILD_ROLES = ("init", "var", "cond", "then", "else", "inc", "body", "lhs", "rhs", "sub",
                 "range", "try", "expr")
 
@@ -385,11 +385,16 @@ class Program:
 _PROGRAM = None
 
 
+INSTANTIATION_DRIVERS = [os.path.join(VERIF, "tools", "instantiate", "shortest_paths_inst.cpp")]
+
+
 def load_program(units=None):
-    """Whole-program load; the merged program is pickled beside the per-unit facts (same tree hash)."""
+    """Whole-program load; the merged program is pickled beside the per-unit facts (same tree hash).
+    Besides the library units, the analysis drivers under tools/instantiate are parsed: they only instantiate
+    templates of /repo's headers that the library itself leaves uninstantiated."""
     import pickle
-    paths = extract(units)
-    tag = hashlib.sha256("\n".join(sorted(paths.values())).encode()).hexdigest()[:32]
+    paths = extract(units, extra_units=INSTANTIATION_DRIVERS)
+    tag = hashlib.sha256(("v2\n" + "\n".join(sorted(paths.values()))).encode()).hexdigest()[:32]
     pk = os.path.join(CACHE, "program-%s.pkl" % tag)
     if os.path.exists(pk):
         try:
